@@ -3,10 +3,8 @@ import SquidModel.Properties.C28
 #print axioms SquidModel.C28.canon_sound_complete
 #print axioms SquidModel.C28.canonize_total
 #print axioms SquidModel.C28.rfc_header_end_to_end
-#print axioms SquidModel.C28.invalid_spec_not_ignored_counterexample
-#print axioms SquidModel.C28.invalid_item_ignores_header_partial
-#print axioms SquidModel.C28.refused_item_examples
+#print axioms SquidModel.C28.accepted_item_is_rfc_spec
+#print axioms SquidModel.C28.invalid_spec_ignores_header
 #print axioms SquidModel.C28.other_unit_ignored
-#print axioms SquidModel.C28.no_overflow_counterexample
-#print axioms SquidModel.C28.no_overflow_partial
+#print axioms SquidModel.C28.no_overflow
 #print axioms SquidModel.C28.parsed_specs_well_formed
